@@ -26,6 +26,7 @@ type c13Arg struct {
 	Honest   bool `json:"honest"` // honest peer H present
 	StopAM   bool `json:"stopam"` // StopAfterMetadata
 	LSize    int  `json:"lsize"` // what L announces as metadata_size: 0 true, 1 true+1, 2 true-1, 3 zero, 4 max, 5 max+1
+	HRev     bool `json:"hrev,omitempty"` // the honest peer answers the newest outstanding metadata request first (no order is prescribed)
 }
 
 const utMetadataID = 3 // the id our scripted peers assign to ut_metadata
@@ -238,9 +239,13 @@ func mkC13() *Scenario {
 			return &Action{Label: "H:ext-handshake", Do: func(w *World) { H.sendExtHandshake(int64(len(g.InfoBytes))) }}
 		}
 		if len(H.metaReqs) > 0 {
-			p := H.metaReqs[0]
+			k := 0
+			if arg.HRev {
+				k = len(H.metaReqs) - 1
+			}
+			p := H.metaReqs[k]
 			return &Action{Label: fmt.Sprintf("H:data(%d)", p), Do: func(w *World) {
-				H.metaReqs = H.metaReqs[1:]
+				H.metaReqs = append(H.metaReqs[:k:k], H.metaReqs[k+1:]...)
 				H.sendData(p, int64(len(g.InfoBytes)), blockOf(g.InfoBytes, p))
 			}}
 		}
@@ -346,6 +351,12 @@ func TestC13Lab(t *testing.T) {
 		}
 	}
 	runs = append(runs, Run{Scenario: "c13", Arg: c13Arg{Blocks: 2, Parallel: 1, Depth: 2, Honest: true, StopAM: true}, Budget: 0})
+	// an honest peer that answers its outstanding metadata requests newest first
+	for _, blocks := range []int{2, 3} {
+		for _, par := range []int{1, 2} {
+			runs = append(runs, Run{Scenario: "c13", Arg: c13Arg{Blocks: blocks, Parallel: par, Depth: 1, Honest: true, HRev: true}, Budget: 0, MaxExec: 300000})
+		}
+	}
 	Explore("TestC13Lab", rep, runs)
 	if n, _ := rep.Extra["adopted"].(int64); n == 0 {
 		rep.Vacuous("vacuous: metadata was never adopted in any execution")
